@@ -22,6 +22,66 @@ CHECKS = {
         "note": "First time point, measure, time signature and divisions entry are at position 0 (what importers produce); values before the first signature are not judged; tolerance 1e-9 relative (forward), 1e-6 absolute (inverse). Cases where user-supplied musical beats make 'shorter than a bar' differ between quarters and beats are counted and not judged.",
         "technique": "property-based testing (Hypothesis) against an exact Fraction reference model of musical time",
     },
+    "C04": {
+        "text": "Generated scores (1-3 parts sharing the metrical structure, divisions differing per part and inside a part incl. 3/5/6/7/12, tuplets, pickups, grace notes, tie chains, part groups, tempo marks) are exported with every part_voice_assign_mode x anacrusis behaviour x minimum_ppq x velocity; the file is read by an independent absolute-tick interpreter (mido iteration, FIFO pairing) and compared with exact integer ticks from Fraction arithmetic (ticks per beat = lcm doubled to the minimum, note multiset, velocity, track/channel assignment, tempo/key/time-signature meta events), then re-imported with load_score_midi (same mode: note multiset and partition into parts/voices) and load_performance_midi (file ticks). Exploration.",
+        "design_ref": "DESIGN.md 4 C04",
+        "note": "Equal pitches never overlap or touch across different (part, voice) pairs (precondition of the property for all modes); parts share the bar structure; time-signature meta events are not compared under anacrusis 'time_sig_change' (library rewrites them by design) and score import is skipped when that mode writes a 0/x signature; import modes 2 and 4: multiset only; tempo marks only in the first part.",
+        "technique": "property-based testing (Hypothesis): round trip + independent MIDI interpreter + exact Fraction tick reference",
+    },
+    "C05": {
+        "text": "Part.note_array under sampled subsets of all include_* options (division and signature changes, pickups, tie chains, grace notes, missing voice/staff, notated and musical beats) compared column by column with a table computed from the abstract score (exact div columns, float32 tolerance for quarter/beat columns, in-force key/time signature, metrical position, staff, grace type, divs_pq) and checked for (onset, pitch) ordering; Part.rest_array likewise incl. collapse; Score / part list / part group note arrays against the union with lcm rescaling, P%02d_ ids and empty parts; note_array_to_score on beat / div / both inputs compared as (onset, duration, pitch) multisets. Exploration.",
+        "design_ref": "DESIGN.md 4 C05",
+        "note": "Rows matched by id; score-level ordering judged on onset_beat (parts may have different pickups); divs_pq on parts with division changes may raise (documented); single-measure metrical columns not judged; lcm over all parts or over parts with notes accepted.",
+        "technique": "property-based testing (Hypothesis) against a reference table computed from the abstract score with Fractions; inverse round trip",
+    },
+    "C06": {
+        "text": "Performances (Performance / PerformedPart / list) generated in the tick domain (exact, near-half and exact-half tick positions, touching notes, shuffled lists, controls, programs, signatures, other meta events, any ppq/mpq, merging on save/load) are saved and re-loaded; three views are compared: the Fraction expectation, the written file read by an independent mido/Fraction interpreter, and the loaded objects (export and import judged separately). Arbitrary generated multi-track MIDI files with set_tempo events anywhere are loaded and compared with the interpreter: seconds by integrating the merged tick-sorted tempo map, next-off pairing incl. zero-velocity note-ons, ids in (onset, pitch, offset, channel, track) order. Exploration.",
+        "design_ref": "DESIGN.md 4 C06",
+        "note": "Tracks 0..k-1 each with a note; notes of one key never overlap (touching allowed); exact .5 ties accept either tick; no two set_tempo at one tick; default program times not checked; end_of_track ignored.",
+        "technique": "property-based testing (Hypothesis): three-way comparison with an independent MIDI interpreter and exact Fraction expectations",
+    },
+    "C07": {
+        "text": "Every match-line class of versions 0.1.0-0.5.0 and 1.0.0 (74 kind x version cells, floors enforced) is built from generated field values, written, compared with an independently rendered text, parsed through the real dispatch, compared field by field and re-written (fixpoint); pre-1.0 lines are upgraded with to_v1 and must keep kind and content; accepted non-canonical spellings canonicalise in one round; FractionalSymbolicDuration string round trips and addition are exact below the 1024 bound; all 30 keys x spellings, time signatures, version and name helpers are enumerated exhaustively. Exploration + exhaustive tables.",
+        "design_ref": "DESIGN.md 4 C07",
+        "note": "Identifiers are letters/digits/underscore with optional -digits suffix; free text without brackets/parentheses/line breaks; alterations -2..2 (+-3 as accepted text); floats compared exactly when writable in the format, else within half a last decimal; atheris not used (optional).",
+        "technique": "property-based testing (Hypothesis grammar strategies) + exhaustive enumeration, independent text renderer as oracle",
+    },
+    "C11": {
+        "text": "add_measures on generated parts (1-3 signatures on/off the bar grid, any divisions incl. a change, existing measures anywhere incl. around a signature change, notated/musical beats) is compared with an interval model (tiling, bar length in force, existing measures untouched, numbers 1..n); tie_notes / find_tuplets / fill_rests / sanitize_part alone and in importer orders must keep the note array, put every pitched note inside one measure, keep tie chains contiguous and uniform and store only symbolic durations that evaluate to the numeric duration; estimate_symbolic_duration is enumerated exhaustively (quick 51,648 pairs; thorough divs 1..960 x dur 1..32*divs = 14,760,960 pairs); find_tie_split / order_splits return contiguous exact splits. Exploration + exhaustive estimator domain.",
+        "design_ref": "DESIGN.md 4 C11",
+        "note": "Bars before a late first signature not judged; rests added inside a measure containing a division change excluded; note: symbolic_duration getter always estimates, so split_note/find_tuplets are unreachable (listed in the module's ASSUMPTIONS).",
+        "technique": "property-based testing (Hypothesis) against an exact interval/Fraction model + exhaustive enumeration of the estimator domain",
+    },
+    "C13": {
+        "text": "compute_pianoroll on structured note arrays in any row order and every option combination is compared cell by cell with an independent exact rasteriser (shape, non-zero pattern, own velocity / max on collisions / 1 when binary, idx rows in input order) and metamorphically under row permutation; the pitch-class roll against the octave fold; pianoroll_to_notearray against run-length decoding and re-rasterisation. Exploration.",
+        "design_ref": "DESIGN.md 4 C13",
+        "note": "Times on grids k/(time_div*m), m odd, so frame rounding is never an exact .5 tie; column count with end_time plus time_margin and piano_range plus pitch_margin not demanded; velocities 1..127.",
+        "technique": "property-based testing (Hypothesis): reference rasteriser, metamorphic row permutation, decode/encode round trip",
+    },
+    "C14": {
+        "text": "Generated note lists (repeated/overlapping equal pitches across channels, zero-length, unsorted), control streams (pedal values around the threshold before/between/after notes, interleaved controllers, unsorted, occasional duplicate times), thresholds and ppq/mpq are built into PerformedPart; every sound_off is compared with an independent exact-arithmetic pedal model; re-assigned thresholds are compared with a fresh part and for monotonicity; note_array and from_note_array(note_array()) are checked with exact tick arithmetic; model-based histories (assign threshold, read, note_array, rebuild, append/clear controls) are checked after every step; Performance track renumbering must be injective per (part, track). Exploration.",
+        "design_ref": "DESIGN.md 4 C14",
+        "note": "Events exactly at a release accept both readings; duplicate pedal times and a pedal never released only get the weak invariants; duration_tick judged only when no pedal extends the note.",
+        "technique": "property-based testing (Hypothesis): @given specs against a Fraction pedal model + stateful/model-based operation histories",
+    },
+    "C15": {
+        "text": "Merging 2-4 generated parts (divisions equal/different/lcm above all, 1-3 voices, 1-2 staves, missing staves, rests, ties, grace notes, tuplets, slurs, directions) from lists, tuples, nested PartGroups and Scores under voice/staff/auto is compared with the abstract score: every note and rest exactly once at lcm-rescaled start/end with unchanged pitch and ties, voice/staff partition kept inside each input and disjoint between inputs, structure from the first part, merged note array and score-level note array equal to the Fraction reference; a container with a single part returns that very object. Exploration.",
+        "design_ref": "DESIGN.md 4 C15",
+        "note": "All parts share the bar structure in musical time, one divisions value per part; disjointness demanded for sounding notes only; auto mode judged on documented behaviour (unique numbers).",
+        "technique": "property-based testing (Hypothesis) with derived-part generator and exact Fraction reference",
+    },
+    "C16": {
+        "text": "All 7 steps x alterations -2..2 (naturals as 0 and None) x octaves 0..8 x 39 interval classes x both directions are transposed through transpose(Score) and compared with independent letter/MIDI arithmetic (29,484 points, exhaustive); transpose_note over its whole documented domain incl. rejection outside it (2,730 points, exhaustive); generated scores and bare parts with tie chains, chords and grace notes are transposed and transposed back, every pitched note judged by id, all other content by fingerprint, the argument by identity fingerprint. Exhaustive grid + exploration.",
+        "design_ref": "DESIGN.md 4 C16",
+        "note": "Judged where the correct result needs at most a double accidental; alter None treated as 0; only Score and Part arguments.",
+        "technique": "exhaustive enumeration + property-based testing (Hypothesis), differential against diatonic arithmetic, fingerprint non-interference",
+    },
+    "C17": {
+        "text": "For generated note arrays (score or performance units, any row order, simultaneous/overlapping/zero-length/duplicate notes): estimate_spelling sounds exactly the MIDI pitch with |alter| <= 2 independent of row order; estimate_voices (both modes) returns integers 1..k without gaps, chords together in chord mode; estimate_key (all profile options) returns a valid key name, invariant under octave shifts and duration rescaling, equivariant under transposition and equal to the best correlation of an independent Krumhansl-Schmuckler implementation; load_score_midi with estimation off/on yields exactly the file's (onset, pitch) pairs. Exploration.",
+        "design_ref": "DESIGN.md 4 C17",
+        "note": "Transposition/best-key judged when the top-two correlation gap exceeds 1e-9, arbitrary scale factors when it exceeds 1e-5; constant distributions not judged; MIDI files grid-aligned without self-overlap.",
+        "technique": "property-based testing (Hypothesis): validity predicates, metamorphic relations, differential oracle against an own key-profile correlation",
+    },
     "C10": {
         "text": "Generated parts with 0-n time signatures (first one late, missing, or only the last kept), key signatures with all fifths/modes incl. a missing mode, clefs on 1-3 staves incl. staves without a clef and parts without any clef, regular/irregular measures, pickups, notated and musical beat mode; time_signature_map, key_signature_map, clef_map, measure_map, measure_number_map and metrical_position_map are queried at every integer position as one array and as scalars at all change points, bar lines and an even sample, and compared with 'latest element at or before t / first one before it / documented default' and with the measure extents computed from the abstract spec. Exploration.",
         "design_ref": "DESIGN.md 4 C10",
